@@ -50,7 +50,6 @@ func modeClass(mode string) string {
 const (
 	slotMain  = 90
 	slotMain2 = 91
-	slotRes   = 92
 	slotAlt   = 93
 	slotBack  = 94
 	slotWhole = 0
@@ -99,14 +98,11 @@ func buildHistory(p *program, perm []int, mode string, uniq func(string) string)
 		readMain(slotMain, true)
 		add('E', slotMain, "", "main", chkExact)
 	case "load", "loadtwice":
-		res := uniq("*@res*")
-		src := strings.Join(defs, "\n") + "\n(setq " + res + " " + main + ")"
-		add('L', 0, src, "load", chkExact)
-		add('R', slotRes, res, "", chkNone)
-		add('E', slotRes, "", "main", chkExact)
+		// load returns t: the value of main is handed to the Go side by (c08-out main)
+		src := strings.Join(defs, "\n") + "\n(c08-out " + main + ")"
+		add('L', 0, src, "main", chkExact)
 		if cls == "loadtwice" {
-			add('L', 0, src, "load-again", chkExact)
-			add('E', slotRes, "", "again", chkExact)
+			add('L', 0, src, "again", chkExact)
 		}
 	case "rep", "comprep", "mixrep":
 		defEach(cls == "comprep")
